@@ -77,7 +77,9 @@ pub fn check_case(ctx: &Ctx, st: &mut Stats, c: &Case, tag: &str) {
         }
         args.push(output.display().to_string());
     }
-    let out = cli::run_fed(&ctx.bin("max_clique_gen"), &args, plan.stdin.as_deref(), &plan.feed, Some(&dir), None, Duration::from_secs(60));
+    let mut feed = plan.feed.clone();
+    feed.stdout_tty = c.io != 2 && c.csv.len() % 4 == 3 && !args.iter().any(|a| a == "/dev/stdout");
+    let out = cli::run_fed(&ctx.bin("max_clique_gen"), &args, plan.stdin.as_deref(), &feed, Some(&dir), None, Duration::from_secs(60));
     let text = if c.io == 2 { std::fs::read_to_string(&output).unwrap_or_default() } else { out.stdout_str() };
     let _ = std::fs::remove_dir_all(&dir);
     let case = || c.to_json();
@@ -217,7 +219,7 @@ fn all_digraphs(nv: usize) -> Vec<Vec<(usize, usize)>> {
     (0..(1u64 << pairs.len())).map(|m| pairs.iter().enumerate().filter(|(i, _)| (m >> i) & 1 == 1).map(|(_, p)| *p).collect()).collect()
 }
 
-const NAME_SETS: [[&str; 8]; 13] = [
+const NAME_SETS: [[&str; 8]; 17] = [
     // names that differ only in case (ASCII and not)
     ["a", "A", "b", "B", "ab", "Ab", "aB", "AB"],
     ["é", "É", "ß", "ss", "ı", "i", "I", "İ"],
@@ -235,6 +237,11 @@ const NAME_SETS: [[&str; 8]; 13] = [
     // names that already look like prefixed copies while the unprefixed base is NOT a vertex
     ["v_a", "v_v_a", "b", "v_v_b", "v_b", "vv_a", "v_v_v_a", "vv_v_a"],
     ["vv_x", "v_vv_x", "vvv_x", "y", "v_y", "vv_y", "v_v_y", "vv_vv_x"],
+    // NUMBERED names: what a generator may well use for its own auxiliary copies (v_0, v1, x_2, c0 ..)
+    ["v_0", "v_1", "v_2", "v_3", "v_4", "v_5", "v_6", "v_7"],
+    ["v_1", "a", "v_0", "b", "v_3", "c", "v_2", "v_10"],
+    ["v0", "v1", "x_0", "x_1", "c0", "c1", "_0", "_1"],
+    ["n_0", "n_1", "u_0", "u_1", "w_0", "w_1", "t_0", "t_1"],
 ];
 
 fn job(ctx: &Ctx, job: usize, jobs: usize, thorough: bool) -> Stats {
